@@ -363,15 +363,32 @@ func (c *c06) refresh(ch *kernel.Chooser) string {
 		return "refresh: nothing to refresh"
 	}
 	g := cands[ch.Int(len(cands))]
+	pre := ""
+	if ch.Bool(1, 4) {
+		// a history: the client first asks for more than was granted (and is refused), then refreshes normally; the
+		// tokens of the second request must show the grant, not the refused wish
+		extra := []string{oidc.ScopeEmail, oidc.ScopePhone, oidc.ScopeProfile, oidc.ScopeAddress}[ch.Int(4)]
+		wish := append(append([]string(nil), g.original...), extra)
+		if ch.Bool(1, 2) {
+			wish = []string{oidc.ScopeOpenID, extra}
+		}
+		pr := w.PostForm("/oauth/token", url.Values{"grant_type": {"refresh_token"}, "refresh_token": {g.refresh}, "scope": {strings.Join(wish, " ")}}, w.RightCreds(g.client))
+		pre = fmt.Sprintf(" after a refused wish for %v (%d)", wish, statusOf(pr))
+		c.o.Probe("refresh-after-refused-wish")
+		if ptr, ok := isTokenSuccess(pr); ok { // the wish was within the grant after all
+			g.access, g.refresh, g.idToken = ptr.AccessToken, ptr.RefreshToken, ptr.IDToken
+			pre = fmt.Sprintf(" after a granted narrower request %v", wish)
+		}
+	}
 	now, key := time.Now(), w.Store.CurrentKey()
 	r := w.PostForm("/oauth/token", url.Values{"grant_type": {"refresh_token"}, "refresh_token": {g.refresh}}, w.RightCreds(g.client))
 	tr, ok := isTokenSuccess(r)
 	if !ok {
-		return fmt.Sprintf("refresh %s -> %d", g.client, statusOf(r))
+		return fmt.Sprintf("refresh %s%s -> %d", g.client, pre, statusOf(r))
 	}
 	cl := w.Store.Clients[g.client]
 	ic := issueCtx{flow: "refresh", client: g.client, subject: g.subject, authTime: time.Unix(g.authTime, 0), amr: []string{"pwd"}, scopes: g.original, now: now, key: key, wantID: true, wantAccess: true, accessType: cl.TokenType}
-	desc := fmt.Sprintf("refresh %s/%s", g.client, g.subject)
+	desc := fmt.Sprintf("refresh %s/%s%s", g.client, g.subject, pre)
 	c.check(desc, ic, tr)
 	g.access, g.refresh, g.idToken = tr.AccessToken, tr.RefreshToken, tr.IDToken
 	return desc
